@@ -140,7 +140,12 @@ impl<'a, BE: DecryptFullBackend, I: ReadGlobalIndex> Rewriter<'a, BE, I> {
     }
 
     pub fn rewrite_tree(&mut self, path: PathBuf, id: TreeId) -> RusticResult<ModifierChange> {
-        if let Match::Ignore(_) = self.visitor.overrides.matched(&path, true) {
+        // The root tree of a snapshot has no name, so it cannot be excluded itself: globs such as `*`
+        // or `**` also match the empty path, and answering `Removed` for it made the caller keep the
+        // snapshot unchanged although every entry is excluded. Its entries are matched one by one.
+        if !path.as_os_str().is_empty()
+            && let Match::Ignore(_) = self.visitor.overrides.matched(&path, true)
+        {
             Ok(ModifierChange::Removed)
         } else {
             self.modifier.modify_tree(path, id, &mut self.visitor)
